@@ -23,7 +23,12 @@
      c18msel <spec|native|wide> <nfields> <ic> <fc> <set> <idval>
                                                          -> 0 | <p>:<cell> | STUCK   (spec: select_written on spec_objs;
                                                             else select_flat on the emitted matrix)
-     c18alts <fc> <set>                                  -> <type cell>* | EMPTY   (alternatives of the open type on column fc) *)
+     c18alts <fc> <set>                                  -> <type cell>* | EMPTY   (alternatives of the open type on column fc)
+   The governing SEQUENCE of any shape (Rt/OpenTypeFrame.v) and the container of an open type (Rt/OpenTypeContainer.v):
+     c18wres <reference as spelled, e.g. @ident or @.ident> <member name>*   -> <member index> | NONE   (resolve_ref)
+     c18wsel <reference> <nmembers> ( <name> <column|-> <value|-> ){nmembers} <nrows> ( <v,v,...> ){nrows}
+                                                         -> <p>   (select_named: presence index, 0 = no row)
+     c18woer <ty> <hex: length determinant + container [+ rest]>          -> OK <consumed> <val> | FAIL   (oer_dec_open) *)
 open Model
 open Drvlib
 
@@ -228,6 +233,9 @@ let show_sel = function
   | SelStuck -> "STUCK"
   | SelRow (r, tc) -> string_of_int (int_of_nat r + 1) ^ ":" ^ show_ocell tc
 
+let name_of (s : string) : z list =
+  List.init (String.length s) (fun i -> cz_of_string (string_of_int (Char.code s.[i])))
+
 let rec dispatch cmd args =
   try dispatch0 cmd args with Refused -> Some "REFUSED"
 and dispatch0 cmd args =
@@ -297,5 +305,33 @@ and dispatch0 cmd args =
            (match alts (nat_of_int (int_of_string fc)) (compile_objs s) with
             | [] -> Some "EMPTY"
             | l -> Some (String.concat " " (List.map show_mcell l)))
+       | _ -> Some "BADARG")
+  | "c18wres" ->
+      (match args with
+       | r :: names -> Some (match resolve_ref (List.map name_of names) (name_of r) with
+                             | Some i -> string_of_int (int_of_nat i)
+                             | None -> "NONE")
+       | _ -> Some "BADARG")
+  | "c18wsel" ->
+      (match args with
+       | r :: nm :: rest ->
+           let rest = ref rest in
+           let next () = match !rest with t :: tl -> rest := tl; t | [] -> raise (Parse "missing tokens") in
+           let ms = List.init (int_of_string nm) (fun _ ->
+             let n = next () in let c = next () in let v = next () in
+             { m_name = name_of n;
+               m_col = (if c = "-" then None else Some (nat_of_int (int_of_string c)));
+               m_val = (if v = "-" then None else Some (cz_of_string v)) }) in
+           let nr = int_of_string (next ()) in
+           let rows = List.init nr (fun _ -> List.map cz_of_string (String.split_on_char ',' (next ()))) in
+           Some (match select_named ms rows (name_of r) with
+                 | Some i -> string_of_int (int_of_nat i + 1)
+                 | None -> "0")
+       | _ -> Some "BADARG")
+  | "c18woer" ->
+      (match args with
+       | [t; h] -> Some (match oer_decode_open (ty_of t) (bytes_of_hex h) with
+                         | Some (v, n) -> Printf.sprintf "OK %s %s" (string_of_cz n) (show_val v)
+                         | None -> "FAIL")
        | _ -> Some "BADARG")
   | _ -> None
